@@ -1,7 +1,8 @@
 // K1: lazy-sort representation invariant of ReplaceSource, checked on the REAL methods
 // (child module of src/replace_source.rs in a scratch copy; sees private fields).
 //
-//   Inv(s) := s.is_sorted  ==>  *s.sorted_index == stable_sort_indices(s.replacements, key = (start, end, enforce))
+//   Inv(s) := *s.sorted_index == stable_sort_indices(s.replacements[..k], key = (start, end, enforce)) for k = its length
+//             /\ (s.is_sorted ==> k == s.replacements.len())
 //
 // Every harness starts from an ARBITRARY state satisfying Inv (keys symbolic over all of u32 x u32 x enforce,
 // stale index vector arbitrary, flag arbitrary) holding exactly N replacements, so what is proved is the
@@ -44,8 +45,14 @@ fn is_stable_sorted(rs: &[Replacement], idx: &[usize]) -> bool {
   }
   true
 }
+/// Inv(s): sorted_index is always the stable key order of a PREFIX of `replacements` (empty, or what the last sort
+/// produced before later pushes), and it covers all of them whenever is_sorted is set.
 fn inv<T>(s: &ReplaceSource<T>) -> bool {
-  !s.is_sorted.load(Ordering::SeqCst) || is_stable_sorted(&s.replacements, &s.sorted_index.lock().unwrap())
+  let idx = s.sorted_index.lock().unwrap();
+  let k = idx.len();
+  k <= s.replacements.len()
+    && is_stable_sorted(&s.replacements[..k], &idx)
+    && (!s.is_sorted.load(Ordering::SeqCst) || k == s.replacements.len())
 }
 fn any_idx() -> Vec<usize> {
   let a: usize = kani::any();
